@@ -78,3 +78,105 @@ def rand_kid(rng):
     return make_kid(version=rand_u32(rng), flags=rand_u32(rng), l0=rand_u32(rng), l1=rand_u32(rng), l2=rand_u32(rng),
                     root_key_identifier=uuid.UUID(bytes=rand_bytes(rng, 16)), key_info=rand_bytes(rng, rng.choice([0, 1, 32, 33, 100, 524, 800])),
                     domain_name=rand_name(rng), forest_name=rand_name(rng))
+
+
+def edit_consistency(ctx, pairs, pack=lambda o: o.pack(), label="object"):
+    """codec objects are plain records: an object that was packed (or came from unpack) and is then EDITED field by field must encode
+    exactly as a freshly constructed object holding the same field values — whatever an earlier pack / unpack left behind in it.
+    `pairs`: (a, b) of the same dataclass; a is packed, then takes over b's fields one at a time."""
+    import dataclasses
+    for a, b in pairs:
+        if type(a) is not type(b) or not dataclasses.is_dataclass(a):
+            continue
+        params = getattr(type(a), "__dataclass_params__", None)
+        if params is not None and params.frozen:
+            continue            # immutable records cannot be edited
+        names = [f.name for f in dataclasses.fields(a) if f.init]
+        try:
+            x = dataclasses.replace(a)
+            pack(x)
+        except Exception:  # noqa
+            continue
+        for i, name in enumerate(names):
+            try:
+                setattr(x, name, getattr(b, name))
+                fresh = dataclasses.replace(b, **{n: getattr(a, n) for n in names[i + 1:]})
+                want = bytes(pack(fresh))
+            except Exception:  # noqa
+                break
+            try:
+                got = bytes(pack(x))
+            except Exception as e:  # noqa
+                got = ("raised " + type(e).__name__).encode()
+            ctx.count(f"edited_{label}:{type(a).__name__}")
+            if got != want:
+                ctx.violation(f"an edited {type(a).__name__} does not encode as a freshly constructed one with the same fields",
+                              {"scenario": "edit_consistency", "class": type(a).__name__, "edited_field": name}, hx(got)[:120], hx(want)[:120])
+                return False
+    return True
+
+
+class PurityRecorder:
+    """The codec functions are functions: the outcome of a call depends on its arguments only — not on what was called before it in the
+    process (a memo with an incomplete key, state left behind by a failed call, a shared buffer).  While the check runs, the named
+    module-level functions record (arguments → outcome) for the first occurrences of each distinct argument tuple; afterwards every
+    recorded call is made again, in reverse order, and must give the same outcome."""
+    def __init__(self, module, names, limit=400):
+        self.module, self.names, self.limit = module, names, limit
+        self.calls, self.orig, self.per = [], {}, {}
+
+    @staticmethod
+    def _freeze(a):
+        if isinstance(a, (bytearray, memoryview)):
+            return ("bytes", bytes(a))
+        if isinstance(a, (list, tuple)):
+            return (type(a).__name__,) + tuple(PurityRecorder._freeze(x) for x in a)
+        return a
+
+    @staticmethod
+    def _outcome(f, args, kwargs):
+        try:
+            r = f(*args, **kwargs)
+            return ("ok", PurityRecorder._freeze(r) if isinstance(r, (bytes, bytearray, memoryview, list, tuple, int, str, type(None))) else repr(r))
+        except Exception as e:  # noqa
+            return ("err", type(e).__name__)
+
+    def __enter__(self):
+        seen = set()
+        for name in self.names:
+            f = getattr(self.module, name)
+            self.orig[name] = f
+
+            def wrapper(*args, _f=f, _name=name, **kwargs):
+                if self.per.get(_name, 0) < self.limit:
+                    try:
+                        key = (_name, tuple(self._freeze(a) for a in args), tuple(sorted((k, self._freeze(v)) for k, v in kwargs.items())))
+                        hash(key)
+                    except TypeError:
+                        key = None
+                    if key is not None and key not in seen:
+                        seen.add(key)
+                        self.per[_name] = self.per.get(_name, 0) + 1
+                        out = self._outcome(_f, args, kwargs)
+                        self.calls.append((_name, args, kwargs, out))
+                        if out[0] == "err":
+                            return _f(*args, **kwargs)          # raise the original exception to the caller
+                        return _f(*args, **kwargs)
+                return _f(*args, **kwargs)
+            setattr(self.module, name, wrapper)
+        return self
+
+    def __exit__(self, *exc):
+        for name, f in self.orig.items():
+            setattr(self.module, name, f)
+        return False
+
+    def verify(self, ctx, what):
+        for (name, args, kwargs, out) in reversed(self.calls):
+            again = self._outcome(self.orig[name], args, kwargs)
+            ctx.count(f"purity_replays:{name}")
+            if again != out:
+                ctx.violation(f"{what}: the same call gives a different outcome later in the process",
+                              {"scenario": "purity", "function": name, "arguments": repr(args)[:300]}, repr(again)[:120], repr(out)[:120])
+                return False
+        return True
